@@ -71,6 +71,9 @@ type StdOptions struct {
 	SessionStates  *bool
 	NoCustomClaims bool
 	AllGrants      bool // every client is registered for every grant type
+	IssuerMode     string
+	Options        []op.Option
+	Endpoints      *op.Endpoints
 }
 
 // NewStd builds the standard world from the "cfg" stream of the tape.
@@ -146,7 +149,8 @@ func NewStd(o *kernel.Outcome, tape *kernel.Tape, opt StdOptions) (*World, error
 	// the provider must accept the tokens it signs itself, whatever the run's algorithm is
 	opts = append(opts, op.WithAccessTokenVerifierOpts(op.WithSupportedAccessTokenSigningAlgorithms(string(w.SigAlg))),
 		op.WithIDTokenHintVerifierOpts(op.WithSupportedIDTokenHintSigningAlgorithms(string(w.SigAlg))))
-	node, err := BuildOP(w.Store, OPConfig{Router: w.Router, Issuer: w.Issuer, Config: w.Conf, Caps: w.Caps, Options: opts})
+	opts = append(opts, opt.Options...)
+	node, err := BuildOP(w.Store, OPConfig{Router: w.Router, Issuer: w.Issuer, IssuerMode: opt.IssuerMode, Config: w.Conf, Caps: w.Caps, Options: opts, Endpoints: opt.Endpoints})
 	if err != nil {
 		return nil, err
 	}
